@@ -38,3 +38,35 @@ End ConeEvalInd.
 (* the i-th leaf assignment of the pattern simulation: the j-th leaf carries bit j of i *)
 Definition row_assign (leaves : list label) (i : N) : dict bool :=
   combine leaves (map (N.testbit i) (nrange (N.of_nat (length leaves)))).
+
+(* ---- side conditions of the pattern simulation (hypotheses of the truth-table theorem) ----
+   eval_pattern reads exactly one operand of a NOT gate and the first two operands of the ten
+   binary types; it has no case for the other types. *)
+Definition pattern_arity (t : gtype) : option nat :=
+  match t with
+  | NOT => Some 1%nat
+  | AND | NAND | OR | NOR | XOR | NXOR | GEQ | LT | LEQ | GT => Some 2%nat
+  | _ => None
+  end.
+
+Definition arity_okb (g : gate) : bool :=
+  match pattern_arity (gtyp g) with
+  | Some k => Nat.eqb k (length (gops g))
+  | None => false
+  end.
+
+(* nodes is a topological order of a cone over leaves: every non-leaf node has a gate of a
+   supported type with the operand count eval_pattern reads, and each of its operands is a
+   leaf or an earlier node (so that the defaultdict never supplies the default 0) *)
+Fixpoint cone_okb (c : circuit) (leaves seen nodes : list label) : bool :=
+  match nodes with
+  | [] => true
+  | n :: rest =>
+    if memb n leaves then cone_okb c leaves seen rest else
+    match dget (gates c) n with
+    | None => false
+    | Some g =>
+      arity_okb g && forallb (fun o => memb o leaves || memb o seen) (gops g)
+      && cone_okb c leaves (n :: seen) rest
+    end
+  end.
